@@ -1,7 +1,8 @@
 """C11 -- audio sources hand out successive whole-sample chunks, then None (DESIGN 4.11)"""
 import ast
 
-from ..facts import Ctx, norm_cmp, exc_name
+from ..facts import Ctx, norm_cmp, exc_name, split_ites, path_cond
+from ..termeval import evaluate, NotEvaluable
 from ..symex import show, walk, term_name, ROLE_OF
 from .. import pat as P
 from .c05 import check_roles
@@ -53,6 +54,231 @@ def getter_setter(cx, mod, c, name):
     return g, s
 
 
+
+def buffer_semantics(cx, rep):
+    """BufferAudioSource decided operation by operation, path-wise and semantically: on a grid of small buffers / cursors /
+    arguments the path whose condition holds is selected and its result and field updates are evaluated as formulas."""
+    from ..facts import self_field_exprs
+    from ..semantic import deep_leaves, evaluator, holds, value, Undecided
+    mod, cname = 'io', 'BufferAudioSource'
+    bc = cx.cls(mod, cname)
+    S = ('self',)
+    W = lambda n: cx.where(mod, n)
+    defs = cx.field_defs(mod, cname)
+    fields = dict(self_field_exprs(cx, mod, cname))
+    data_f = [f for f, ds in defs.items() if any(d['method'] == '__init__' and d['value'] == ('p', 'data') for d in ds)]
+    meth = lambda name: cx.model.find_method(mod, bc, name)
+
+    def dl(m):
+        return deep_leaves(cx, m[0], bc, m[2])          # inherited methods are evaluated with self of the concrete class
+
+    def stores(l, ev, only=None):
+        out = {}
+        for e in l.effects:
+            if e[0] == 'store' and e[1][0] == 'attr' and e[1][1] == S and (only is None or e[1][2] in only):
+                out[e[1][2]] = value(e[2], ev)
+        return out
+    try:
+        rw = meth('rewind')
+        rdm = meth('read')
+        cur_f = sorted({e[1][2] for l in dl(rdm) for e in l.effects if e[0] == 'store' and e[1][0] == 'attr' and e[1][1] == S})
+        op = meth('open')
+        open_f = sorted({e[1][2] for l in dl(op) for e in l.effects if e[0] == 'store' and e[1][0] == 'attr' and e[1][1] == S and e[2] == ('c', True)})
+    except Undecided as exc:
+        rep.unknown('BufferAudioSource: %s' % exc)
+        return
+    if len(data_f) != 1 or len(cur_f) != 1:
+        rep.unknown('BufferAudioSource: data field %s / cursor field %s (the one field read() updates) not identified uniquely' % (data_f, cur_f))
+        return
+    data_f, cur_f = data_f[0], cur_f[0]
+    fields.pop(cur_f, None)
+    fields.pop(data_f, None)
+    rep.info.append('BufferAudioSource: data field %s, cursor field %s, open flag %s' % (data_f, cur_f, open_f))
+
+    def A(n, c, sw, ch, rate=10, is_open=True, **params):
+        d = bytes(range(n * sw * ch)) if n * sw * ch < 256 else bytes(n * sw * ch)
+        a = {('attr', S, data_f): d, ('p', 'data'): d, ('attr', S, cur_f): c, ('p', 'sample_width'): sw, ('p', 'channels'): ch, ('p', 'sampling_rate'): rate,
+             ('attr', S, 'sample_width'): sw, ('attr', S, 'channels'): ch, ('attr', S, 'sampling_rate'): rate}
+        for f in open_f:
+            a[('attr', S, f)] = is_open
+        for k, v in params.items():
+            a[('p', k)] = v
+        return d, a
+
+    def one(lv, a, what):
+        hit = [l for l in lv if holds(l, evaluator(a, fields=fields))]
+        if len(hit) != 1:
+            raise Undecided('%d paths apply to %s' % (len(hit), what))
+        return hit[0]
+    # ------------------------------------------------------------ read(size)
+    rd = meth('read')
+    pn = rd[2].args.args[1].arg
+    bad = None
+    npts = 0
+    try:
+        lv = dl(rd)
+        for sw in (1, 2):
+            for ch in (1, 2):
+                bps = sw * ch
+                for n in (0, 1, 3, 4):
+                    for k in range(n + 1):
+                        for size in (None, -1, -3, 1, 2, 3, 10):
+                            d, a = A(n, k * bps, sw, ch, **{pn: size})
+                            what = 'read(%s) at sample %d of %d (%d-byte samples, %d channel(s))' % (size, k, n, sw, ch)
+                            l = one(lv, a, what)
+                            chunk = d[k * bps:] if (size is None or size < 0) else d[k * bps: (k + size) * bps]
+                            want = chunk or None
+                            npts += 1
+                            if l.outcome != 'return':
+                                bad = bad or (l, '%s: %s %s' % (what, l.outcome, exc_name(l) if l.outcome == 'raise' else ''))
+                                continue
+                            ev = evaluator(a, fields=fields)
+                            got = value(l.value, ev) if l.value is not None else None
+                            if got != want or (got is not None and not isinstance(got, bytes)):
+                                bad = bad or (l, '%s returns %r; the next min(size, remaining) whole samples are %r (None once nothing remains, never b"")' % (what, got, want))
+                                continue
+                            st = stores(l, evaluator(a, fields=fields), {cur_f})
+                            newc = st.get(cur_f, k * bps)
+                            if newc != k * bps + len(chunk):
+                                bad = bad or (l, '%s leaves the cursor at byte %r; it must advance by the %d bytes returned (to %d)' % (what, newc, len(chunk), k * bps + len(chunk)))
+        rep.ob('buffer read(size): returns the next min(size, remaining) whole samples (all remaining for None / negative size), None at the end, and advances the cursor by what it returned',
+               bad is None, W(bad[0].node) if bad and bad[0].node is not None else W(rd[2]), 'BufferAudioSource.read:semantics', bad[1] if bad else None, sample=dict(operation='read', grid_points=npts))
+        rep.floor('grid points of the buffer read rule', npts, 300)
+        # not open
+        d, a = A(3, 0, 2, 1, is_open=False, **{pn: 1})
+        if open_f:
+            l = one(lv, a, 'read(1) on a closed buffer source')
+            rep.ob('reading a source that is not open raises an I/O error', l.outcome == 'raise' and exc_name(l) in ('AudioIOError', 'IOError', 'OSError'), W(l.node) if l.node is not None else W(rd[2]),
+                   'BufferAudioSource.read:closed', 'outcome %s %s' % (l.outcome, exc_name(l) if l.outcome == 'raise' else ''))
+    except Undecided as exc:
+        rep.unknown('BufferAudioSource.read: %s' % exc)
+    # ------------------------------------------------------------ position getter / setter
+    g, st_ = getter_setter(cx, mod, bc, 'position')
+    if g is None or st_ is None:
+        rep.unknown('BufferAudioSource.position getter/setter not found')
+    else:
+        try:
+            bad = None
+            npts = 0
+            glv = dl(g)
+            for sw in (1, 2):
+                for ch in (1, 2):
+                    for n in (0, 2, 5):
+                        for k in range(n + 1):
+                            d, a = A(n, k * sw * ch, sw, ch)
+                            l = one(glv, a, 'position with the cursor at sample %d' % k)
+                            got = value(l.value, evaluator(a, fields=fields)) if l.outcome == 'return' and l.value is not None else None
+                            npts += 1
+                            if got != k or isinstance(got, float):
+                                bad = bad or (l, 'with the cursor at byte %d (%d-byte samples, %d channel(s)) position reads %r, not %d' % (k * sw * ch, sw, ch, got, k))
+            rep.ob('position reads back the number of samples consumed', bad is None, W(g[2]), 'BufferAudioSource.position:getter', bad[1] if bad else None, sample=dict(operation='position (get)', grid_points=npts))
+            bad = None
+            npts = 0
+            slv = dl(st_)
+            spn = st_[2].args.args[1].arg
+            for sw in (1, 2):
+                for ch in (1, 2):
+                    bps = sw * ch
+                    for n in (0, 2, 5):
+                        for v in range(-8, 9):
+                            d, a = A(n, 0, sw, ch, **{spn: v})
+                            what = 'position = %d on %d samples (%d-byte samples, %d channel(s))' % (v, n, sw, ch)
+                            l = one(slv, a, what)
+                            idx = v if v >= 0 else v + n
+                            npts += 1
+                            if idx < 0 or idx > n:
+                                if not (l.outcome == 'raise' and exc_name(l) == 'IndexError'):
+                                    bad = bad or (l, '%s is out of range and must raise IndexError; outcome %s %s' % (what, l.outcome, exc_name(l) if l.outcome == 'raise' else ''))
+                                continue
+                            if l.outcome == 'raise':
+                                bad = bad or (l, '%s is in range (sample %d) but raises %s' % (what, idx, exc_name(l)))
+                                continue
+                            newc = stores(l, evaluator(a, fields=fields), {cur_f}).get(cur_f)
+                            if newc != idx * bps:
+                                bad = bad or (l, '%s puts the cursor at byte %r; sample %d is byte %d' % (what, newc, idx, idx * bps))
+            rep.ob('position = v moves the cursor to sample v (v + length when negative); values outside 0..length raise IndexError', bad is None, W(bad[0].node) if bad and bad[0].node is not None else W(st_[2]),
+                   'BufferAudioSource.position:setter', bad[1] if bad else None, sample=dict(operation='position (set)', grid_points=npts))
+            rep.floor('grid points of the position rules', npts, 100)
+        except Undecided as exc:
+            rep.unknown('BufferAudioSource.position: %s' % exc)
+    # ------------------------------------------------------------ seconds / milliseconds setters go through position
+    for nm, scale in (('position_s', 1), ('position_ms', 1000)):
+        g2, s2 = getter_setter(cx, mod, bc, nm)
+        if s2 is None:
+            rep.unknown('BufferAudioSource.%s setter not found' % nm)
+            continue
+        try:
+            lv2 = dl(s2)
+            pn2 = s2[2].args.args[1].arg
+            bad = None
+            npts = 0
+            NS = 100000
+            for rate in (10, 100, 16000, 44100, 48000):
+                for t in ((0, 1, 2, -1, 0.5, 1.26, -0.35, 0.29, 1.001, 3) if scale == 1 else (0, 1, 9, 18, 250, 290, 570, 1001, 1003, 1500, -100, -999, -1001, 3000)):
+                    d, a = A(NS, 0, 2, 1, rate=rate, **{pn2: t})
+                    what = '%s = %r at %d Hz' % (nm, t, rate)
+                    l = one(lv2, a, what)
+                    want = int(rate * t / scale) if scale != 1 else int(rate * t)
+                    idx = want if want >= 0 else want + NS
+                    npts += 1
+                    if l.outcome == 'raise':
+                        if not (exc_name(l) == 'IndexError' and (idx < 0 or idx > NS)):
+                            bad = bad or (l, '%s (sample %d of %d) raises %s' % (what, want, NS, exc_name(l)))
+                        continue
+                    ev = evaluator(a, fields=fields, mode='frac')
+                    st = {}
+                    for e in l.effects:
+                        if e[0] == 'store' and e[1][0] == 'attr' and e[1][1] == S:
+                            st[e[1][2]] = value(e[2], ev)
+                    if 'position' in st:
+                        if st['position'] != want or isinstance(st['position'], float):
+                            bad = bad or (l, '%s assigns position = %r; int(rate * t%s) = %d' % (what, st['position'], '' if scale == 1 else ' / 1000', want))
+                    elif cur_f in st:
+                        if idx < 0 or idx > NS:
+                            bad = bad or (l, '%s (sample %d of %d) is out of range and must raise IndexError' % (what, want, NS))
+                        elif st[cur_f] != idx * 2:
+                            bad = bad or (l, '%s puts the cursor at byte %r; sample %d is byte %d' % (what, st[cur_f], idx, idx * 2))
+                    else:
+                        raise Undecided('%s writes neither position nor the cursor (%s)' % (what, sorted(st)))
+            rep.ob('%s = t moves to sample int(rate * t%s) through position' % (nm, '' if scale == 1 else ' / 1000'), bad is None, W(bad[0].node) if bad and bad[0].node is not None else W(s2[2]),
+                   'BufferAudioSource.%s:setter' % nm, bad[1] if bad else None, sample=dict(operation=nm, grid_points=npts))
+        except Undecided as exc:
+            rep.unknown('BufferAudioSource.%s: %s' % (nm, exc))
+    # ------------------------------------------------------------ rewind() returns to position 0
+    try:
+        ok, seen = True, 0
+        for l in dl(rw):
+            if l.outcome == 'raise':
+                continue
+            d, a = A(3, 4, 2, 1)
+            if not holds(l, evaluator(a, fields=fields)):
+                continue
+            seen += 1
+            ok = ok and stores(l, evaluator(a, fields=fields), {cur_f}).get(cur_f) == 0
+        if not seen:
+            raise Undecided('no path of rewind() applies')
+        rep.ob('rewind() returns to position 0', ok, W(rw[2]), 'BufferAudioSource.rewind')
+    except Undecided as exc:
+        rep.unknown('BufferAudioSource.rewind: %s' % exc)
+    # ------------------------------------------------------------ close() returns to the start
+    cl = meth('close')
+    try:
+        ok = True
+        for l in dl(cl):
+            if l.outcome == 'raise':
+                continue
+            d, a = A(3, 4, 2, 1)
+            try:
+                if not holds(l, evaluator(a, fields=fields)):
+                    continue
+            except Undecided:
+                pass
+            st = stores(l, evaluator(a, fields=fields), {cur_f})
+            ok = ok and st.get(cur_f) == 0
+        rep.ob('close() returns to the start (rewinds) on every path', ok, W(cl[2]), 'BufferAudioSource.close:rewind')
+    except Undecided as exc:
+        rep.unknown('BufferAudioSource.close: %s' % exc)
+
 def check(repo, rep):
     cx = Ctx(repo)
     srcs = concrete_sources(cx)
@@ -65,7 +291,7 @@ def check(repo, rep):
             rep.unknown('%s has no read()' % c.name)
             continue
         rm, rc, rfn = r
-        lv = cx.leaves_of(rm, rc, rfn)
+        lv = split_ites(cx.leaves_of(rm, rc, rfn))
         tag = c.name
         W = lambda n, _m=rm: cx.where(_m, n)
         nread += 1
@@ -122,7 +348,7 @@ def check(repo, rep):
         got_scaled = False
         got_all = False
         for im, ic, ifn in impl:
-            for l in cx.leaves_of(im, ic, ifn):
+            for l in split_ites(cx.leaves_of(im, ic, ifn)):
                 size_none = any((ct == ('cmp', 'is', ('p', 'size'), ('c', None)) and tr) or ((g := norm_cmp(ct, tr)) and g[0] == '<' and g[1] == ('p', 'size') and g[2] == ('c', 0)) for ct, tr, _ in l.conds)
                 for e in l.effects:
                     t = e[1]
@@ -146,26 +372,9 @@ def check(repo, rep):
                                 got_scaled = got_scaled or ok
                                 rep.ob('stream reads ask for size * sample_width * channels bytes (whole samples)', ok, cx.where(im, e[3]), '%s.%s:request-bytes' % (tag, ifn.name), 'asks %s bytes' % show(a)[:100],
                                        sample=dict(source=tag, request=show(a)[:80]))
-                # buffer source: slice of the data
-                if l.outcome == 'return' and l.value is not None and l.value[0] == 'sub' and l.value[2][0] == 'slice':
-                    lo, hi = l.value[2][1], l.value[2][2]
-                    cur = lo
-                    okc = cur is not None and cur[0] == 'attr' and cur[1] == ('self',)
-                    rep.ob('buffer read starts at the cursor', okc, cx.where(im, l.node), '%s.read:slice-start' % tag, 'slice starts at %s' % (show(lo) if lo else None))
-                    if size_none:
-                        got_all = True
-                        rep.ob('None / negative size reads everything that remains', hi is None or hi == ('c', None), cx.where(im, l.node), '%s.read:read-all' % tag, 'slice ends at %s' % (show(hi) if hi else None))
-                    else:
-                        ok = hi is not None and okc and P.summ(P.same(cur), P.prod(P.param('size'), isbps))(hi)
-                        got_scaled = got_scaled or ok
-                        rep.ob('buffer read ends at cursor + size * sample_width * channels (whole samples)', ok, cx.where(im, l.node), '%s.read:slice-end' % tag, 'slice ends at %s' % (show(hi)[:120] if hi else None),
-                               sample=dict(source=tag, slice='[%s : %s]' % (show(lo), show(hi)[:80] if hi else '')))
-                    # cursor advanced by the bytes returned
-                    ups = [e for e in l.effects if e[0] == 'store' and e[1] == cur]
-                    oku = any(P.summ(P.same(cur), P.call('len', P.same(l.value)))(u[2]) for u in ups)
-                    rep.ob('cursor advances by exactly the bytes returned', oku, cx.where(im, l.node), '%s.read:cursor-advance' % tag, 'cursor updates: %s' % [show(u[2])[:100] for u in ups])
-        rep.ob('read(size) requests size whole samples from the underlying stream', got_scaled, W(rfn), '%s.read:no-scaled-request' % tag)
-        if c.name in ('BufferAudioSource', 'RawAudioSource', 'WaveAudioSource'):
+        if c.name != 'BufferAudioSource':        # the buffer source is decided semantically below (buffer_semantics)
+            rep.ob('read(size) requests size whole samples from the underlying stream', got_scaled, W(rfn), '%s.read:no-scaled-request' % tag)
+        if c.name in ('RawAudioSource', 'WaveAudioSource'):
             rep.ob('None / negative size means all remaining samples', got_all, W(rfn), '%s.read:no-read-all' % tag)
     # ---------------------------------------------------------------- read() never changes whether the source is open (after the end: None on EVERY further call)
     from ..effects import Effects
@@ -181,91 +390,39 @@ def check(repo, rep):
         calls_close = [n for fn_ in [r[2]] for n in ast.walk(fn_) if isinstance(n, ast.Call) and isinstance(n.func, ast.Attribute) and isinstance(n.func.value, ast.Name) and n.func.value.id == 'self' and n.func.attr in ('close', 'open')]
         rep.ob('read() leaves the open state alone: an exhausted source keeps answering None (it does not close itself)', not touched and not calls_close, cx.where(r[0], r[2]), '%s.read:changes-open-state' % c.name,
                'read() may write %s (read by is_open) / calls %s' % (touched, [ast.unparse(n.func) for n in calls_close]), sample=dict(source=c.name, open_state_fields=sorted(open_fields), written_by_read=touched))
-    # ---------------------------------------------------------------- BufferAudioSource position / rewind / close
-    bc = cx.cls('io', 'BufferAudioSource')
-    bps = bps_fields(cx, 'io', bc)
-    isbps = P.Pat(lambda t: (t[0] == 'attr' and t[1] == ('self',) and t[2] in bps) or P.prod(P.role('sample_width'), P.role('channels'))(t), 'bytes_per_sample')
-    g, st = getter_setter(cx, 'io', bc, 'position')
-    if g is None or st is None:
-        rep.unknown('BufferAudioSource.position getter/setter not found')
-    else:
-        cursor = None
-        for l in cx.leaves_of(*g):
-            if l.outcome == 'return':
-                ok = l.value[0] == 'bin' and l.value[1] == '//' and l.value[2][0] == 'attr' and isbps(l.value[3])
-                if ok:
-                    cursor = l.value[2]
-                rep.ob('position reads back the cursor in whole samples (cursor // bytes_per_sample)', ok, cx.where(g[0], l.node), 'BufferAudioSource.position:getter', 'returns %s' % show(l.value)[:100])
-        sl = cx.leaves_of(*st)
-        pname = st[2].args.args[1].arg
-        scaled = P.prod(P.param(pname), isbps)
-        datalen = P.call('len', P.attr(SELF, 'data') | P.attr(SELF, '_data'))
-        raising = [l for l in sl if l.outcome == 'raise']
-        storing = [l for l in sl if l.outcome != 'raise']
-        for l in raising:
-            rep.ob('out-of-range positions raise IndexError', exc_name(l) == 'IndexError', cx.where(st[0], l.node), 'BufferAudioSource.position:exception', 'raises %s' % exc_name(l))
-        low = high = False
-        for l in raising:
-            gd = norm_cmp(l.conds[-1][0], l.conds[-1][1])
-            if gd and gd[0] == '<' and gd[2] == ('c', 0):
-                low = True
-            if gd and gd[0] == '>' and datalen(gd[2]):
-                high = True
-            if gd and gd[0] == '>=' and datalen(gd[2]):
-                rep.ob('a position equal to the length is allowed (end of data)', False, cx.where(st[0], l.node), 'BufferAudioSource.position:upper-guard', 'rejects under %s' % show(l.conds[-1][0])[:100])
-        rep.ob('positions below 0 (after counting from the end) raise IndexError', low, cx.where(st[0], st[2]), 'BufferAudioSource.position:no-lower-guard')
-        rep.ob('positions beyond the data raise IndexError', high, cx.where(st[0], st[2]), 'BufferAudioSource.position:no-upper-guard')
-        for l in storing:
-            ups = [e for e in l.effects if e[0] == 'store' and (cursor is None or e[1] == cursor)]
-            neg = any((gd := norm_cmp(ct, tr)) and gd[0] == '<' and scaled(gd[1]) and gd[2] == ('c', 0) for ct, tr, _ in l.conds)
-            for u in ups:
-                ok = P.summ(scaled, datalen)(u[2]) if neg else scaled(u[2])
-                rep.ob('position setter stores position * bytes_per_sample (+ len(data) for negative positions)', ok, cx.where(st[0], u[3]), 'BufferAudioSource.position:store[%s]' % ('negative' if neg else 'non-negative'),
-                       'stores %s' % show(u[2])[:120], sample=dict(setter='position', negative=neg, stores=show(u[2])[:100]))
-            rep.ob('position setter writes the cursor on every accepting path', bool(ups), cx.where(st[0], st[2]), 'BufferAudioSource.position:no-store')
-    # seconds / milliseconds setters go through position
-    for nm, pat_desc in (('position_s', 's'), ('position_ms', 'ms')):
-        g2, s2 = getter_setter(cx, 'io', bc, nm)
-        if s2 is None:
-            rep.unknown('BufferAudioSource.%s setter not found' % nm)
-            continue
-        pn = s2[2].args.args[1].arg
-        for l in cx.leaves_of(*s2):
-            if l.outcome == 'raise':
-                continue
-            ups = [e for e in l.effects if e[0] == 'store' and e[1] == ('attr', ('self',), 'position')]
-            if nm == 'position_s':
-                want = P.call('int', P.prod(P.role('sampling_rate'), P.param(pn)))
-            else:
-                want = P.call('int', P.binop('/', P.prod(P.role('sampling_rate'), P.param(pn)), P.const(1000))) | P.call('int', P.prod(P.role('sampling_rate'), P.binop('/', P.param(pn), P.const(1000))))
-            ok = len(ups) == 1 and want(ups[0][2])
-            rep.ob('%s setter assigns position = int(rate * t%s)' % (nm, '' if nm == 'position_s' else ' / 1000'), ok, cx.where(s2[0], s2[2]), 'BufferAudioSource.%s:setter' % nm,
-                   'stores %s' % [show(u[2])[:100] for u in ups], sample=dict(setter=nm, stores=[show(u[2])[:80] for u in ups]))
-    # rewind / close
-    rw = cx.model.find_method('io', bc, 'rewind')
-    okr = any(e[0] == 'store' and e[2] == ('c', 0) and e[1][0] == 'attr' and e[1][1] == ('self',) for l in cx.leaves_of(*rw) for e in l.effects)
-    rep.ob('rewind() returns to position 0', okr, cx.where(rw[0], rw[2]), 'BufferAudioSource.rewind')
-    cl = cx.model.find_method('io', bc, 'close')
-    okc = all(any((e[0] == 'call' and P.method(SELF, 'rewind')(e[1])) or (e[0] == 'store' and e[2] == ('c', 0) and e[1][0] == 'attr' and 'pos' in e[1][2]) for e in l.effects) for l in cx.leaves_of(*cl))
-    rep.ob('close() returns to the start (rewinds) on every path', okc, cx.where(cl[0], cl[2]), 'BufferAudioSource.close:rewind')
+    buffer_semantics(cx, rep)
     # ---------------------------------------------------------------- whole-sample check
     cad = cx.leaves('io', 'check_audio_data')
     raises = [l for l in cad if l.outcome == 'raise']
-    ok = False
-    for l in raises:
-        gd = norm_cmp(l.conds[-1][0], l.conds[-1][1]) if l.conds else None
-        if gd and gd[0] == '!=':
-            sides = [gd[1], gd[2]]
-            ln = P.call('len', P.param('data'))
-            bpsl = P.call('int', P.prod(P.role('sample_width'), P.role('channels'))) | P.prod(P.role('sample_width'), P.role('channels'))
-            whole = P.prod(P.binop('//', ln, bpsl), bpsl)
-            if (ln(sides[0]) and whole(sides[1])) or (ln(sides[1]) and whole(sides[0])):
-                ok = True
-            mod0 = P.binop('%', ln, bpsl)
-            if (mod0(sides[0]) and sides[1] == ('c', 0)):
-                ok = True
-    rep.ob('check_audio_data rejects data that is not a whole number of samples', ok, cx.where('io', cx.fn('io', 'check_audio_data')), 'check_audio_data:condition',
-           'raising conditions: %s' % [show(l.conds[-1][0])[:100] for l in raises if l.conds])
+    # decided semantically: the disjunction of the raising paths' conditions, evaluated as a formula over (len(data), width, channels) on a
+    # grid of small values, must be true exactly when len(data) is not a multiple of width * channels
+    rc_term = ('or', tuple(path_cond(l) for l in raises)) if raises else ('c', False)
+    LEN = ('call', ('b', 'len'), (('p', 'data'),), ())
+    ok, bad, unk = True, None, None
+    for sw_ in (1, 2, 3, 4):
+        for ch_ in (1, 2, 3):
+            for n_ in range(0, 4 * sw_ * ch_ + 2):
+                try:
+                    got, other = evaluate(rc_term, {LEN: n_, ('p', 'sample_width'): sw_, ('p', 'channels'): ch_})
+                except NotEvaluable as exc:
+                    unk = str(exc)
+                    break
+                if other:
+                    unk = 'depends on %s' % [show(o)[:60] for o in other][:3]
+                    break
+                if bool(got) != (n_ % (sw_ * ch_) != 0):
+                    ok, bad = False, (n_, sw_, ch_, bool(got))
+                    break
+            if unk or not ok:
+                break
+        if unk or not ok:
+            break
+    if unk:
+        rep.unknown('check_audio_data: raising condition %s not evaluable as a formula of len(data), sample_width, channels (%s)' % (show(rc_term)[:120], unk))
+    else:
+        rep.ob('check_audio_data rejects data that is not a whole number of samples', ok, cx.where('io', cx.fn('io', 'check_audio_data')), 'check_audio_data:condition',
+               'raises iff %s; for len(data)=%s sample_width=%s channels=%s it %s' % ((show(rc_term)[:140],) + ((bad[0], bad[1], bad[2], 'raises' if bad[3] else 'does not raise') if bad else ('', '', '', ''))),
+               sample=dict(function='check_audio_data', raises_iff=show(rc_term)[:140]))
     for mod, qual in (('io', 'BufferAudioSource.__init__'), ('core', 'AudioRegion.__post_init__')):
         lv = cx.leaves(mod, qual)
         okall = all(l.outcome == 'raise' or any(e[0] == 'call' and e[1][0] == 'call' and e[1][1] == ('g', 'io', 'check_audio_data') and e[4] == 0 for e in l.effects) for l in lv)
